@@ -11,7 +11,36 @@
         length 0 when anything before the write fails and length 1 otherwise, the entry is
         the whole output, and the result is the first failure;
      3. the model's [file_render] / [code_render_with_file] / [file_save] are the
-        abstraction of running the regenerated event lists. *)
+        abstraction of running the regenerated event lists.
+
+   WHAT THE EVENT SEMANTICS ASSUMES.  [EvRender target buf] (a call of a function of package
+   jen that is not an entry point and receives a LOCAL bytes.Buffer as its only io.Writer:
+   f.render(f, body, nil), f.renderImports(source), a helper extracted from Render),
+   [EvWriteLocal buf], [EvFormat] and the handlers are given a semantics in which they touch
+   only that local buffer: never the caller's writer, never the file system.  For the caller's
+   writer parameter `w` itself this needs no assumption: `w` never reaches such a call, because
+   ANY mention of `w` in an entry point is an [EvWriteCaller] event and the checker accepts only
+   `w.Write(x)` and the delegation to another checked entry point.  What the theorems below do
+   not see is a second road to the same writer or to the disk from inside the callee (the
+   callee writing to os.Stdout, creating a file, writing to a writer left in a package-level
+   variable or a struct field, or recovered by a type assertion from a value of the tree).
+   This is CHECKED BY THE TRANSLATOR, not proved in Coq: tools/cmd/io2coq scans the whole
+   package (every non-test file: so the callee's body and everything it calls, transitively
+   and whatever the dispatch) and prints what it finds as [io_confinement], which
+   [C10_shape_confined] requires to be empty:
+     1. no reference to an object of os, io/ioutil, syscall, os/exec, os/signal, net, net/http,
+        log, plugin, unsafe, reflect, runtime/debug, to fmt.Print*/Scan*, to print/println,
+        outside the bodies of the EFileSys entry points (File.Save), which are events;
+     2. no package-level variable or struct field whose type implements io.Writer (other than
+        bytes.Buffer / strings.Builder);
+     3. no type assertion, type-switch case or conversion to such a type;
+     4. no cgo, no go:linkname.
+   Still assumed, unchecked: the other standard library packages jen uses (bytes, fmt.Fprint*
+   and Sprint*, go/format, io, sort, strconv, strings, unicode) touch nothing but their
+   arguments; and the translator itself (its rules are listed in the header of
+   tools/cmd/io2coq/main.go; names in the table are go/types objects, not spellings; every
+   parameter whose type implements io.Writer is a caller's writer, but a writer handed over
+   INSIDE another value - a struct, a slice, a func - is not tracked). *)
 From Jen Require Import Base.Bytes Spec.IOShape Gen.IO.
 From Jen Require Import Model.Code Model.Naming Model.Render Model.FileRender.
 From Jen Require Import Proofs.IOProofs.
@@ -20,17 +49,27 @@ From Jen Require Import Proofs.IOProofs.
    C10 are in it with the expected kinds.  For an EWriter entry ([io_wf]): the body is
    local statements (only local buffers and variables; every fallible event's error is
    returned; no early `return nil`; no unrecognised statement; no use of the caller's writer),
-   then the formatting step, then ONE `w.Write(x)` of the formatted variable whose error is
+   then the formatting phase ([fmt_sym]: any of the equivalent ways of leaving in x the
+   formatted contents of the source buffer - or, honouring NoFormat, the raw ones - with the
+   formatter's error returned: `if f.NoFormat { x = src.Bytes() } else { x, err = format.Source(..); check }`,
+   `x := src.Bytes(); if !f.NoFormat { x, err = format.Source(..); check }`, the arms swapped,
+   or the unconditional format), then ONE `w.Write(x)` of that variable whose error is
    returned, then `return nil`.  For Save ([save_parts]): a fresh buffer, the render into it
    with its error returned, ONE os call - os.WriteFile(path parameter, that buffer) - with
    its error returned, `return nil`.  For Render ([delegate_target]): `return
-   x.RenderWithFile(w, ..)` and nothing else. *)
+   x.RenderWithFile(w, ..)` and nothing else.  An unexported function that is handed the
+   caller's writer is an entry of the table as well, so `return helper(w, ..)` as a whole body
+   is such a delegation, followed ([resolve], [body_of]) to the entry that does the work. *)
 Theorem C10_shape_table : table_wf io_entries = true /\ entries_present = true.
 Proof. exact io_table_ok. Qed.
 
+(* the confinement scan of the translator (see the header) reports nothing *)
+Theorem C10_shape_confined : io_confinement = [].
+Proof. exact io_confined_ok. Qed.
+
 Theorem C10_shape_delegates :
-  delegate_target (body_of n_stmt_render) = Some n_stmt_rwf /\
-  delegate_target (body_of n_group_render) = Some n_group_rwf.
+  delegate_target (own_body_of n_stmt_render) = Some n_stmt_rwf /\
+  delegate_target (own_body_of n_group_render) = Some n_group_rwf.
 Proof. exact delegates_ok. Qed.
 
 (* 2. The generic theorem: for EVERY body accepted by the checker, every oracle [orc] (what
@@ -53,8 +92,8 @@ Theorem C10_shape_sound :
   | Normal st _ =>
     let raw := getb src st in
     match (if nf && noformat then Some raw else fmt raw) with
-    | None => exists e, call orc noformat fmt wfail fsfail strval sub body = (st, Some e) /\
-                        unwrap e = EFormat raw /\ wlog st = [] /\ fslog st = []
+    | None => exists e st', call orc noformat fmt wfail fsfail strval sub body = (st', Some e) /\
+                            unwrap e = EFormat raw /\ wlog st' = [] /\ fslog st' = []
     | Some out =>
       exists st', call orc noformat fmt wfail fsfail strval sub body =
                   (st', if wfail 1%nat then Some (EWriteErr 1) else None) /\
@@ -212,6 +251,7 @@ Example C10_shape_mutant_create_before_render :
 Proof. vm_compute. repeat split; reflexivity. Qed.
 
 Print Assumptions C10_shape_table.
+Print Assumptions C10_shape_confined.
 Print Assumptions C10_shape_delegates.
 Print Assumptions C10_shape_sound.
 Print Assumptions C10_shape_at_most_one_write.
